@@ -59,6 +59,12 @@ def cases(chk):
     yield "chunking", {"frames": ["aa"], "cuts": [1, 2, 3], "tail": 0}
     yield "chunking", {"frames": ["aa", "bb", "cc"], "cuts": [], "tail": 0}
     yield "chunking", {"frames": ["00" * 65536, "01"], "cuts": [3, 40000], "tail": 0}
+    # frame sizes around every power of two the 3-byte header can express (a header read with too few bits shows up only there)
+    for k in ((16, 17, 18, 19, 20) if chk.quick() else (16, 17, 18, 19, 20, 21, 22, 23)):
+        for n in ((1 << k) - 1, 1 << k, (1 << k) + 1) if k >= 20 or not chk.quick() else (1 << k,):
+            yield "chunking", {"frames": ["03", ("%02x" % (k * 7 % 251 + 1)) * n, "0405", "06"], "cuts": [2, 5, n // 2, n + 7], "tail": 0}
+    if not chk.quick():
+        yield "chunking", {"frames": ["aa" * ((1 << 24) - 1), "bb"], "cuts": [1, 1 << 23], "tail": 0}
     yield "zero", {"chunks": ["000000", "000000", "000001", "09"]}
     yield "zero", {"chunks": ["00000000000107"]}
     yield "disabled", {"chunks": ["000001", "07", "-"]}
